@@ -18,6 +18,11 @@ CHECKS = {
   "design_ref": "DESIGN.md section 3 C01",
   "note": TRUST + " Programs are chosen by a seeded generator in the harness (core profile); the machine is the only judge.",
   "technique": "TLA+ abstract machine (CEK style) as trace acceptor under TLC over marker traces recorded from the implementation"},
+ "C04": {
+  "text": "Model-based conformance: LambdaList.tla defines Bind(lambda list, argument vector) from the language rules (positional first, defaults - literal, form, form using an earlier parameter - when absent, rest collected in order, keys by name, aux) with TLC checking totality and arity laws as an invariant and enumerating every lambda-list shape x every call shape; each row is executed against slip through a direct call, funcall, apply, a body that ignores its parameters, and - for functions redefined from another lambda list - through call sites compiled before the redefinition; observed bindings / rejections are compared with Bind. Second half: every registered function of every package is called with 0..max+2 arguments of its documented types and the TLA+ acceptor Arity (TLC) derives the arity relation from the documented lambda list.",
+  "design_ref": "DESIGN.md section 3 C04",
+  "note": TRUST + " Permissive where the statement is silent: an undeclared keyword may be rejected or ignored, either value of a duplicated key, and both readings of &rest followed by &key (the implementation documents that the rest stops at the first declared keyword). The 101 documented-arity disagreements of the unchanged tree are one open finding with an exact committed list.",
+  "technique": "TLA+ definition of binding (TLC invariant + exhaustive enumeration) replayed against the code; TLA+ trace acceptor for the registry sweep"},
  "C07": {
   "text": CORE_TEXT,
   "design_ref": "DESIGN.md section 3 C07",
